@@ -455,6 +455,23 @@ func c01OrderPrograms() []string {
 	add("three (n \"1\" 1) (n \"2\" 2) (n \"3\" 3)\n")
 	add("x := [(n \"1\" 1) (n \"2\" 2) (n \"3\" 3)]\nprint x\n")
 	add("x := {c:(n \"c\" 1) a:(n \"a\" 2) b:(n \"b\" 3) z:(n \"z\" 4) y:(n \"y\" 5) k:(n \"k\" 6)}\nprint x\n")
+	// a map literal's values are evaluated in source order, whatever the number of pairs (the host's own map
+	// has no order: 2, 9, 12 and 26 pairs, and the same literal evaluated again and again)
+	for _, keys := range []string{"ba", "ihgfedcba", "lkjihgfedcba", "zyxwvutsrqponmlkjihgfedcba"} {
+		lit, lit2 := "{", "{"
+		for i, k := range keys {
+			if i > 0 {
+				lit += " "
+				lit2 += " "
+			}
+			lit += fmt.Sprintf("%c:(n \"%c\" %d)", k, k, i)
+			lit2 += fmt.Sprintf("%c:(nx)", k)
+		}
+		lit += "}"
+		lit2 += "}"
+		add("x := " + lit + "\nprint x\n")
+		add("cnt := 0\nfunc nx:num\n    cnt = cnt + 1\n    return cnt\nend\nfor i := range 6\n    x := " + lit2 + "\n    print i x\nend\n")
+	}
 	add("x := (a \"arr\")[(n \"idx\" 1)]\nprint x\n")
 	add("x := (a \"arr\")[(n \"lo\" 0):(n \"hi\" 2)]\nprint x\n")
 	add("y := [0 0 0]\ny[(n \"idx\" 1)] = (n \"val\" 9)\nprint y\n")
@@ -822,6 +839,18 @@ func TypeMatrixPrograms() []string {
 		}
 		if l != "ma" {
 			out = append(out, pre+"ma.k = "+l+"\n"+use)
+		}
+		// composite literals of DIFFERENT element types side by side: the elements of the inner literals are
+		// values of type any as soon as the combined type says so, at every depth
+		for _, r := range descs {
+			if strings.HasPrefix(l, "(") || strings.HasPrefix(r, "(") {
+				continue
+			}
+			out = append(out,
+				pre+"x := [["+l+"] ["+r+"]]\nprint x (typeof x) (typeof x[0]) (typeof x[0][0]) (typeof x[1][0])\nprint (x[0][0] == x[1][0]) (x[0] == x[1])\ne := x[0][0]\nprint e (typeof e) [e]\n"+use,
+				pre+"x := [{a:"+l+"} {a:"+r+"}]\nprint x (typeof x) (typeof x[0].a) (typeof x[1].a)\nprint (x[0].a == x[1].a)\n"+use,
+				pre+"x := {p:["+l+"] q:["+r+" "+l+"]}\nprint x (typeof x) (typeof x.p[0]) (typeof x.q[1]) (x.p[0] == x.q[1])\n"+use,
+				pre+"x := [[["+l+"]] [["+r+"]]]\nprint x (typeof x) (typeof x[0][0][0]) (x[0][0][0] == x[1][0][0])\n"+use)
 		}
 	}
 	return out
